@@ -420,6 +420,13 @@ def run(ctx):
                             continue
                         cases.append(dict(section="facade", method=nm, span=list(span), shape=shape, t_eval=v, dense=(len(sub) % 2 == 0), tol=1e-8, max_step=None,
                                           first_step=0.125 if nm == "RK4" else None, by_hand=True))
+    # S2b: output times that are close together - relative to their own size (|t| ~ 2000, spacing 2.5e-3) and absolutely (spacing 4e-9 near 0.5): distinct
+    #      requested times are distinct columns, however close
+    for nm in ("RK45", "RK4", "DOPRI45", "RK87"):
+        for span, te in (((2000.0, 2001.0), [2000.25 + 0.0025 * k for k in range(9)] + [2001.0]), ((-2001.0, -2000.0), [-2000.75 + 0.0025 * k for k in range(9)] + [-2000.0]),
+                         ((0.0, 1.0), [0.5, 0.5 + 4e-9, 0.5 + 8e-9, 0.5 + 1.2e-8, 1.0]), ((-1.0, 0.0), [-0.5, -0.5 + 4e-9, -0.5 + 8e-9, 0.0])):
+            for dense in (False, True):
+                cases.append(dict(section="facade", method=nm, span=list(span), shape=[2], t_eval=te, dense=dense, tol=1e-8, max_step=None, first_step=0.125 if nm == "RK4" else None, by_hand=True))
     # S3: args of length 0..3
     for nm in ("RK45", "DOPRI45", "RK87"):
         for span in fwd + [(1.0, -1.0)]:
